@@ -104,7 +104,7 @@ func c02Dump(nc *nats.Conn, prefix string) string {
 			return
 		}
 		nodes, err := client.GetNodes(nc, parent, id, "", true)
-		if err != nil {
+		if noteTmo(err) != nil {
 			out = append(out, "ERR "+strings.ReplaceAll(err.Error(), " ", "_"))
 			return
 		}
@@ -126,7 +126,7 @@ func c02Dump(nc *nats.Conn, prefix string) string {
 			out = append(out, fmt.Sprintf("%d,%s,%s,%s[%s][%s]", d, hxs(strings.ReplaceAll(n.ID, prefix, "")), hxs(n.Type),
 				hxs(strings.ReplaceAll(n.Parent, prefix, "")), sp(n.Points), sp(n.EdgePoints)))
 			kids, err := client.GetNodes(nc, n.ID, "all", "", true)
-			if err != nil {
+			if noteTmo(err) != nil {
 				continue
 			}
 			for _, k := range kids {
